@@ -3,7 +3,7 @@
 From Verif Require Import Base.Str Syntax.CoreGrammar.
 From Coq Require Import Lia.
 
-Definition all_toks := [TWord;TLit;TName;TAssign;TIf;TThen;TElif;TElse;TFi;TWhile;TUntil;TDo;TDone;TFor;TIn;TCase;TEsac;TLbrace;TRbrace;TBang;TSemi;TAmp;TAndAnd;TOrOr;TPipe;TLparen;TRparen;TDSemi;TNewl;TRedir;TIoRedir].
+Definition all_toks := [TWord;TLit;TName;TAssign;TAssignW;TIf;TThen;TElif;TElse;TFi;TWhile;TUntil;TDo;TDone;TFor;TIn;TCase;TEsac;TLbrace;TRbrace;TBang;TSemi;TAmp;TAndAnd;TOrOr;TPipe;TLparen;TRparen;TDSemi;TNewl;TRedir;TIoRedir].
 Fixpoint lists_n (n : nat) : list (list token) :=
   match n with O => [[]] | S k => flat_map (fun l => map (fun t => t :: l) all_toks) (lists_n k) end.
 
